@@ -206,13 +206,16 @@ class HasherPool:
 
         # Start threads manually after they were created to prevent race
         # conditions and make sure all required threads are running
-        self._janitor.start(fail_ok=False)
 
         # Hashers are allowed to fail (e.g. because of OS limits), but we need
         # at least one to start successfully
         self._hashers[0].start(fail_ok=False)
         for hasher in self._hashers[1:]:
             hasher.start(fail_ok=True)
+
+        # Janitor must be started last because it regards every hasher that
+        # isn't running as terminated and stops tracking it
+        self._janitor.start(fail_ok=False)
 
     def _hasher_thread(self, is_vital=True):
         piece_queue = self._piece_queue
